@@ -21,6 +21,13 @@ CHECKS = {
         technique="contract-based deductive verification (ast->z3 VCs, induction lemmas), counter-model replay on real code",
         design_ref="DESIGN 3 C30",
     ),
+    "C09": dict(
+        level="exploration",
+        text="BOUNDED stand-in (never counted as proved): the real geq_leq_zero / diff_geq_leq_zero are called on an enumerated, explicitly bounded family of (formula, integer box) cases and every non-'unknown' verdict is checked at every integer point of the box with exact rational arithmetic (both calling modes; caches cleared and a reversed warm-cache pass). The comparator decides through sympy's assumption system and function_range, which no contract language available here can model, so no deductive check is attempted. Five classes of unsound verdicts found on the unchanged tree are recorded as known findings F9-F13 with witnesses that are replayed on every run.",
+        note="Bound: expression grammar of depth <= 2 (quick; every depth <= 1 formula, 750 seeded depth-2 formulas and 63 targeted ones) / <= 3 (thorough) over <= 3 positive integer symbols with + - * /, ceiling, Min, Max, Heaviside, constants 1..3; boxes 1 <= lo <= hi <= 3 (quick) / 4 (thorough). Not exhaustive beyond depth 1. sympy itself is trusted only as the system under test; reference values are computed with Fractions by the oracle.",
+        technique="bounded run-time contract check of the real function (enumerated formulas x boxes, exact evaluation)",
+        design_ref="DESIGN 4 C09",
+    ),
     "C10": dict(
         level="proof",
         text="Deductive, all three clauses: _factorize (result = exactly the divisors, ascending), _divisors (the sorted enumeration of the divisor set), get_possible_factor_sizes in both modes (perfect: exactly the multiples of inner dividing outer; imperfect: within [1, outer] and, for every tile count reachable by a multiple of inner, the smallest shape with that count) and _count_factorizations == the brute-force chain count (one contract instance per imperfection pattern of length <= 4, each for every n >= 1; sums handled by a proved extensionality lemma) are proved from the real source with loop invariants; nonlinear integer operations are uninterpreted in function VCs and every arithmetic fact is a separately proved lemma VC. A bounded cross-check of the executable specs against the real functions corroborates the specs.",
@@ -41,6 +48,34 @@ CHECKS = {
         note=_TB + "Python eval / operator dispatch and frozenset algebra assumed; pydantic construction stores keyword arguments; eval_set_expression of a key assumed to return an InvertibleSet over the table's universe (a plain symbol returns its table entry); re.findall for `Other` outside the slices; named-set construction bounded only.",
         technique="contract-based deductive verification (ast->z3 VCs over a heap of set-valued fields, slices with loop invariants); bounded run-time cross-check for the named-set table",
         design_ref="DESIGN 3 C22",
+    ),
+    "C23": dict(
+        level="exploration",
+        text="BOUNDED stand-in (never counted as proved): the real concise-notation parser (_parse_einsum_string, Workload(einsums=[str]), the `einsum:` dict form with extra attributes, and from_yaml) is run on an enumerated family of well-formed Einsums under five whitespace patterns and must yield exactly the tensors, projections and output flags of the verbose form; single-edit malformed mutants that an independent recogniser of the documented grammar places outside the language must be rejected. The parser is regex / string code (re.findall, str.split) outside the VC generator's subset. Malformed classes that the unchanged parser accepts are recorded as known finding C23-malformed-accepted.",
+        note="Bound: exhaustive core of 1024 one-input Einsums (1-2 entries per tensor from {m, n, M: m, N: m, X: m+n, Y: 2*m+n}); plus 200 (quick) / 1500 (thorough) seeded random Einsums with 1-3 / 1-4 inputs and 1-3 / 1-4 entries per tensor; about 3.6k malformed strings (quick). Excluded from the well-formed family: duplicated rank names in one tensor, repeated tensor names in one Einsum, 0-rank tensors (see the oracle's `rule`).",
+        technique="bounded run-time contract check of the real parser (enumerated Einsums x whitespace patterns, single-edit malformed mutants)",
+        design_ref="DESIGN 4 C23",
+    ),
+    "C24": dict(
+        level="exploration",
+        text="BOUNDED stand-in (never counted as proved): on an enumerated family of small workloads the real rank-variable bounds, operation counts, tensor sizes, strides / halos and dense tile occupancies are compared with brute-force enumeration of the iteration box written in the oracle; a tensor size must equal the number of projected points or an explicit error must be raised (only when an image is not a non-empty box). The functions under test run through islpy's C library, which cannot be given to the VC generator. Two findings on the unchanged tree (tensor size of a shared tensor whose ranks are listed in different orders; halo including the constant offset) are recorded as known findings with witnesses.",
+        note="Bound: exhaustive core (one Einsum over m, n; all 17 one-rank projections a*m+b*n+c, a,b in {0,1,2}, c in {0,1}, for all bounds in 1..4 (quick) / 1..6 (thorough); all ordered pairs as two-rank tensors for bounds 1..2 / 1..3) plus 600 / 4000 seeded random workloads of 1-2 / 1-3 Einsums over <= 3 of 5 rank variables.",
+        technique="bounded run-time contract check of the real functions against explicit enumeration of the iteration space",
+        design_ref="DESIGN 4 C24",
+    ),
+    "C26": dict(
+        level="proof",
+        text="Deductive for the aggregation: the body of the loop of Spec.calculate_component_costs (slice) is symbolically executed; proved for every parents list and every value: total_area == area x parents_fanout(parents) and total_leak_power == leak_power x parents_fanout(parents), where parents_fanout is the recursively defined product of the fan-outs of the Spatialable non-Compute parents (loop invariant over the parents list), times the component's own fan-out -- the last factor is known finding F4 (own fan-out not counted; restricted to the two obligations it names, witness replayed each run). Genuine defect F5 (a sibling Compute's fan-out multiplied in) was repaired in /repo. BOUNDED, not proved: WHICH nodes are in `parents` (ArchNode.iterate_hierarchically, a recursive generator over a shared mutated list) -- random architecture trees (depth <= 4, <= ~12 leaves, nested Hierarchical / Fork) through the real Spec, compared with the definition of 'above on its path'.",
+        note=_TB + "calculate_area / calculate_leak_power / find / get_fanout assumed; real arithmetic; node names unique; first calculation on the spec (re-calculation is C27); iterate_hierarchically and the architecture totals (sums over components) are bounded only.",
+        technique="contract-based deductive verification of the aggregation loop (slice, loop invariant over a recursively defined product); bounded run-time check over architecture trees for the parents relation",
+        design_ref="DESIGN 3 C26",
+    ),
+    "C27": dict(
+        level="proof",
+        text="Deductive: the cost loop of Spec.calculate_component_costs (slice) is symbolically executed under the precondition that every component is already marked as costed for the requested kinds (what one earlier call establishes); proved for every architecture, flag combination and value: no area, total_area, leak_power, total_leak_power, per-action energy or throughput of any existing object changes, and all marks are kept. Genuine defect F6 (costs re-scaled on every call) was repaired in /repo (fix: commit) by recording per component which costs were calculated. That one call leaves the marks behind, and that the copy made for an evaluated spec preserves values and marks, is covered by the bounded cross-check (call histories of length 2-3 with flag subsets on random real Specs), not proved.",
+        note=_TB + "iterate_hierarchically, find, calculate_* (not in place: fresh copies), get_fanout assumed; node names unique; absent `_costs_calculated` reads as the empty set; pydantic model_copy preserves instance attributes.",
+        technique="contract-based deductive verification (slice over a heap model, frame invariants), bounded run-time check of call histories",
+        design_ref="DESIGN 3 C27",
     ),
     "C29": dict(
         level="proof",
